@@ -15,7 +15,9 @@ ID = 'C09'
 LEVEL = 'exploration'
 TECHNIQUE = 'bounded exhaustive enumeration of small grammars x modes x formats x options, independent decoders of PMCFG/RCG/LoPar files, CLI executed in-process'
 
-WORDS = ['w', 'Haus', 'ärger', 'w', 'Über', 'USA', '3D', 'eMail', '#1', '#', 'caf\u00e9', 'cafe\u0301']
+WORDS = ['w', 'Haus', 'ärger', 'w', 'Über', 'USA', '3D', 'eMail', '#1', '#', 'caf\u00e9', 'cafe\u0301',
+         # thirteenth wave: lower-case letters that casefold() rewrites (the .oc / .OC split goes by isupper())
+         '\u00dfen', '\u00b5m', '\ufb01ndet']
 MODES = [None,
          {'reordering': 'none', 'markov': None},
          {'reordering': 'optimal', 'markov': None},
